@@ -29,6 +29,9 @@ type rabNode struct {
 	gen    *rdkg.DistKeyGenerator
 	fault  string
 	victim int
+	pubs   []kyber.Point
+	tr     *rabTrace     // nil: not traced against the model (real groups: logarithms unknown)
+	nt     *rabNodeTrace // this node's trace
 }
 
 func (n *rabNode) dealer() *rvss.Dealer {
@@ -68,6 +71,15 @@ func c11RabinScenarioV(c *kc.Ctx, mock bool, n, t int, faults map[int]string, vi
 			return
 		}
 		nodes[i].gen = g
+		nodes[i].pubs = pubs
+	}
+	var tr *rabTrace
+	if mock {
+		tr = &rabTrace{w: w, n: n, t: t, desc: desc, meta: map[*rvss.EncryptedDeal]rabDealMeta{}}
+		for _, x := range nodes {
+			x.tr, x.nt = tr, &rabNodeTrace{}
+		}
+		defer rabTraceDone(c, nodes)
 	}
 	honest := func(x *rabNode) bool { return x.fault == "none" }
 	run := func(f func()) (ok bool) {
@@ -81,13 +93,14 @@ func c11RabinScenarioV(c *kc.Ctx, mock bool, n, t int, faults map[int]string, vi
 	}
 	// 1. deals
 	dealRefused := map[int]bool{}
+	seenDeal := map[int]*rdkg.Deal{}
 	var resps []*rdkg.Response
 	for _, d := range nodes {
 		if d.fault == "absent" {
 			continue
 		}
 		var deals map[int]*rdkg.Deal
-		if !run(func() { deals, _ = d.gen.Deals() }) || deals == nil {
+		if !run(func() { deals, _ = d.deals() }) || deals == nil {
 			viol("deals-panic", fmt.Sprintf("Deals() of node %d failed", d.i))
 			return
 		}
@@ -104,6 +117,7 @@ func c11RabinScenarioV(c *kc.Ctx, mock bool, n, t int, faults map[int]string, vi
 					bad := *pd
 					bad.SecShare = &share.PriShare{I: pd.SecShare.I, V: w.suite.Scalar().Add(pd.SecShare.V, w.suite.Scalar().One())}
 					if e, err := dl.EncryptDealFor(v, &bad); err == nil {
+						tr.reg(e, &bad, v)
 						deals[v] = &rdkg.Deal{Index: uint32(d.i), Deal: e}
 						left--
 					}
@@ -121,6 +135,7 @@ func c11RabinScenarioV(c *kc.Ctx, mock bool, n, t int, faults map[int]string, vi
 					bad.SecShare = &share.PriShare{I: pd.SecShare.I, V: w.suite.Scalar().Add(pd.SecShare.V, w.suite.Scalar().One())}
 				}
 				if e, err := dl.EncryptDealFor(d.victim, &bad); err == nil {
+					tr.reg(e, &bad, d.victim)
 					deals[d.victim] = &rdkg.Deal{Index: uint32(d.i), Deal: e}
 				}
 			}
@@ -131,7 +146,8 @@ func c11RabinScenarioV(c *kc.Ctx, mock bool, n, t int, faults map[int]string, vi
 			}
 			var r *rdkg.Response
 			var err error
-			if !run(func() { r, err = nodes[j].gen.ProcessDeal(dd) }) {
+			seenDeal[j] = dd
+			if !run(func() { r, err = nodes[j].processDeal(dd) }) {
 				viol("processdeal-panic", fmt.Sprintf("ProcessDeal at %d of deal from %d panicked", j, d.i))
 				return
 			}
@@ -174,9 +190,9 @@ func c11RabinScenarioV(c *kc.Ctx, mock bool, n, t int, faults map[int]string, vi
 					if x.i%2 == 1 {
 						first, second = ac, rc
 					}
-					run(func() { j, _ = x.gen.ProcessResponse(first) })
+					run(func() { j, _ = x.processResponse(first) })
 					var j2 *rdkg.Justification
-					run(func() { j2, _ = x.gen.ProcessResponse(second) })
+					run(func() { j2, _ = x.processResponse(second) })
 					if j == nil {
 						j = j2
 					}
@@ -186,7 +202,7 @@ func c11RabinScenarioV(c *kc.Ctx, mock bool, n, t int, faults map[int]string, vi
 					continue
 				}
 			}
-			run(func() { j, _ = x.gen.ProcessResponse(rc) })
+			run(func() { j, _ = x.processResponse(rc) })
 			if j != nil && x.fault != "badShareUnjustified" && x.fault != "badShareMany" {
 				justs = append(justs, j)
 			}
@@ -239,8 +255,36 @@ func c11RabinScenarioV(c *kc.Ctx, mock bool, n, t int, faults map[int]string, vi
 				continue
 			}
 			jc := rabCopyJustification(j)
-			run(func() { _ = x.gen.ProcessJustification(jc) })
+			run(func() { _ = x.processJustification(jc) })
 		}
+	}
+	// Stray traffic (traced scenarios, every other one): a deal delivered twice, a deal / response / justification
+	// naming an index nobody holds, a justification without content. All of it has to be refused without
+	// any effect; the model says so step by step, the predicates below see the outcome.
+	if tr != nil && rng.Intn(2) == 0 {
+		for _, x := range nodes {
+			if x.fault == "absent" {
+				continue
+			}
+			if dd := seenDeal[x.i]; dd != nil {
+				run(func() { _, _ = x.processDeal(dd) })
+				far := &rdkg.Deal{Index: uint32(n + rng.Intn(3)), Deal: dd.Deal}
+				run(func() { _, _ = x.processDeal(far) })
+			}
+			if len(resps) > 0 {
+				rc := rabCopyResponse(resps[rng.Intn(len(resps))])
+				rc.Index = uint32(n + 1 + rng.Intn(3))
+				run(func() { _, _ = x.processResponse(rc) })
+			}
+			run(func() { _ = x.processJustification(&rdkg.Justification{Index: uint32(rng.Intn(n))}) })
+			run(func() { _ = x.processJustification(&rdkg.Justification{Index: uint32(n + rng.Intn(3))}) })
+			if len(justs) > 0 {
+				jc := rabCopyJustification(justs[rng.Intn(len(justs))])
+				jc.Index = uint32(n + rng.Intn(3))
+				run(func() { _ = x.processJustification(jc) })
+			}
+		}
+		c.CountKind("rabin:stray-traffic")
 	}
 	// 3. timeout: needed only when a response is missing; otherwise a node may or may not call it
 	needTimeout := false
@@ -251,7 +295,7 @@ func c11RabinScenarioV(c *kc.Ctx, mock bool, n, t int, faults map[int]string, vi
 	}
 	for _, x := range nodes {
 		if x.fault != "absent" && (needTimeout || rng.Intn(2) == 0) {
-			run(func() { x.gen.SetTimeout() })
+			run(func() { x.setTimeout() })
 		}
 	}
 	// QUAL() is an output of its own: once deals, responses, justifications (and timeouts) are in, the honest
@@ -589,7 +633,8 @@ func c11Rabin(c *kc.Ctx, rng *kc.Rng) {
 			}
 		}
 	}
-	c.Extra("scenarios_R_rabin_dkg_search_only", scen)
+	rabFlush(c)
+	c.Extra("scenarios_R_rabin_dkg", scen)
 }
 
 func rabCopyResponse(r *rdkg.Response) *rdkg.Response {
